@@ -124,9 +124,103 @@ def run_waitset(unit, em):
                     m, fn.q.split('::')[-1]), 'waitset')
 
 
+# ---- clause `waitset-outer`: the owning algorithm shrinks a waiting set only where it then looks whether it became empty
+def run_waitset_outer(unit, em):
+    from vfacts import must_pass_through
+    for fn in unit.functions:
+        short = fn.q.replace('VATA::', '')
+        if short not in ANCHORS or fn.body is None:
+            continue
+        cfg = fn.cfg()
+        if cfg is None:
+            continue
+        def is_wait(e):
+            e = strip(e)
+            return e is not None and e['k'] == 'MemberExpr' and e.get('dk', 'field') == 'field' and unit.ty(e).replace('const ', '').startswith('std::set<unsigned long')
+        aliases = {}
+        from .prov import var_table
+        for d_, v_ in var_table(fn).items():
+            dn = v_['decl']
+            if v_['kind'] == 'local' and unit.ty(dn).rstrip().endswith('&') and not unit.ty(dn).startswith('const ') and is_node(dn.get('init')) and is_wait(dn['init']):
+                aliases[d_] = strip(dn['init']).get('n')
+        def wait_obj(o):
+            o = strip(o)
+            if o is None:
+                return None
+            if is_wait(o):
+                return o.get('n')
+            if o['k'] == 'DeclRefExpr' and o.get('d') in aliases:
+                return aliases[o['d']]
+            return None
+        for n in fn.walk():
+            if n['k'] != 'CXXMemberCallExpr' or n.get('const'):
+                continue
+            F = wait_obj(n.get('obj'))
+            m = method_name(n)
+            if F is None or m in ('begin', 'end', 'find', 'count', 'size', 'empty', 'cbegin', 'cend', 'lower_bound', 'upper_bound'):
+                continue
+            txt = unit.text(n, 60)
+            pos = cfg.locate(n)
+            def tests_empty(x, F=F):
+                return x['k'] == 'CXXMemberCallExpr' and method_name(x) in ('empty', 'size') and wait_obj(x.get('obj')) == F
+            ok = pos is not None and must_pass_through(cfg, pos, None, tests_empty)[0]
+            if ok:
+                em.ok(n, txt, 'the waiting set is changed here and tested for emptiness afterwards on every path', 'waitset')
+            else:
+                em.violation(n, txt, 'the set of children a rule waits for (`%s`) is changed by %s outside the rule object, on a path that never looks whether it became empty: '
+                             'a rule whose last awaited child is removed here is registered under no state and never fires, so its parent state is taken for unreachable' % (F, m), 'waitset')
+
+
+# ---- clause `fired`: a rule reported as enabled has its parent state recorded before the loop is left or goes on
+def run_fired(unit, em):
+    from vfacts import must_pass_through
+    for fn in unit.functions:
+        short = fn.q.replace('VATA::', '')
+        if short not in ANCHORS or fn.body is None:
+            continue
+        cfg = fn.cfg()
+        if cfg is None:
+            continue
+        for c in fn.calls():
+            if c['k'] != 'CXXMemberCallExpr' or method_name(c) != 'reachedBy':
+                continue
+            ifs = enclosing(c, ('IfStmt',))
+            if ifs is None or not any(x is c for x in walk(ifs['c'])):
+                em.unknown(c, unit.text(c, 50), 'the enabled-test is not the condition of an if statement', 'fired')
+                continue
+            cond = strip(ifs['c'])
+            fired_edge = True
+            k = cond
+            while k is not None and k['k'] == 'UnaryOperator' and k.get('op') == '!':
+                fired_edge = not fired_edge
+                k = strip(k['ch'][0])
+            if k is not c:
+                em.unknown(c, unit.text(c, 50), 'the enabled-test is combined with other conditions', 'fired')
+                continue
+            who = root_path(c.get('obj'))
+            def edge(cn, cond=cond, fe=fired_edge):
+                return fe if strip(cn) is cond else None
+            def records(x, who=who):
+                if x['k'] != 'CXXMemberCallExpr' or method_name(x) not in ('insert', 'emplace') or not x.get('args'):
+                    return False
+                rp = root_path(x['args'][0])
+                return bool(rp) and bool(who) and rp[0] == who[0] and rp[-1] == 'state_'
+            def leaves(x, c=c):
+                return x['k'] in ('GotoStmt', 'BreakStmt', 'ReturnStmt') or x is c
+            pos = cfg.locate(cond)
+            ok, w = must_pass_through(cfg, pos, leaves, records, start_after=False, edge_filter=edge) if pos else (False, None)
+            if ok:
+                em.ok(c, unit.text(c, 50), 'the parent state of an enabled rule is recorded as reached before the loop is left or continues', 'fired')
+            else:
+                em.violation(c, unit.text(c, 50), 'after this test reports the rule as enabled (its waiting set is used up, it will never be reported again) control can reach line %d '
+                             'without the rule\'s parent state having been entered into the reached set: if that state is the only reachable accepting one the result has no accepting state' % (unit.loc(w)[1] if w else 0), 'fired')
+
+
 _run_counters = run
 
 
 def run(unit, em):
     _run_counters(unit, em)
     run_waitset(unit, em)
+    run_waitset_outer(unit, em)
+    run_fired(unit, em)
